@@ -120,9 +120,11 @@ Ltac neqs_in H :=
          end.
 
 Definition endc (c : Z) : bool := isspace c || (c =? 93).
+(* rest_ok0: what may follow a value inside "a ... b" as well *)
+Definition rest_ok0 (rest : str) : Prop :=
+  (rest = [] \/ endc (hd0 rest) = true) /\ hd0 (skip_ws rest) <> 40.
 Definition rest_ok (rest : str) : Prop :=
-  (rest = [] \/ endc (hd0 rest) = true) /\ starts_with ellipsis (skip_ws rest) = false /\
-  hd0 (skip_ws rest) <> 40.
+  rest_ok0 rest /\ starts_with ellipsis (skip_ws rest) = false.
 
 Lemma isspace_spec c : isspace c = true <-> (9 <= c <= 13 \/ c = 32).
 Proof. unfold isspace, in_range. lia. Qed.
@@ -131,23 +133,23 @@ Lemma endc_spec c : endc c = true <-> (9 <= c <= 13 \/ c = 32 \/ c = 93).
 Proof. unfold endc. rewrite orb_true_iff, isspace_spec, Z.eqb_eq. lia. Qed.
 
 Lemma rest_ok_inv rest :
-  rest_ok rest -> rest = [] \/ exists c r, rest = c :: r /\ (9 <= c <= 13 \/ c = 32 \/ c = 93).
+  rest_ok0 rest -> rest = [] \/ exists c r, rest = c :: r /\ (9 <= c <= 13 \/ c = 32 \/ c = 93).
 Proof.
   intros [[->|H] _]; [now left|]. destruct rest as [|c r]; [now left|].
   right. exists c, r. split; [reflexivity|]. now apply endc_spec.
 Qed.
 
 Lemma rest_ok_ell rest : rest_ok rest -> starts_with ellipsis (skip_ws rest) = false.
-Proof. now intros [_ [H _]]. Qed.
+Proof. now intros [_ H]. Qed.
 
-Lemma rest_ok_hd rest : rest_ok rest ->
+Lemma rest_ok_hd rest : rest_ok0 rest ->
   hd0 rest = 0 \/ 9 <= hd0 rest <= 13 \/ hd0 rest = 32 \/ hd0 rest = 93.
 Proof.
   intros H. destruct (rest_ok_inv _ H) as [->|(c & r & -> & Hc)]; [now left|].
   right. exact Hc.
 Qed.
 
-Lemma word_end_rest rest : rest_ok rest -> word_end_ok rest = true.
+Lemma word_end_rest rest : rest_ok0 rest -> word_end_ok rest = true.
 Proof.
   intros H. destruct (rest_ok_inv _ H) as [->|(c & r & -> & Hc)]; [reflexivity|].
   unfold word_end_ok, isspace, in_range. lia.
@@ -167,7 +169,7 @@ Definition tokch (c : Z) : bool :=
   negb (isspace c || (c =? 41) || (c =? 93) || (c =? 46)).
 
 Lemma tok_end_app t rest :
-  Forall (fun c => tokch c = true) t -> rest_ok rest -> tok_end (t ++ rest) = rest.
+  Forall (fun c => tokch c = true) t -> rest_ok0 rest -> tok_end (t ++ rest) = rest.
 Proof.
   intros Ht Hr. induction Ht as [|c t Hc Ht IH]; cbn [app].
   - destruct (rest_ok_inv _ Hr) as [->|(c & r & -> & Hc)]; [reflexivity|].
@@ -192,7 +194,7 @@ Proof. intros A B. unfold sc_sign. now neqs. Qed.
 Definition num_follow (rest : str) : Prop :=
   isdigit (hd0 rest) = false /\ hd0 rest <> 120 /\ hd0 rest <> 88.
 
-Lemma rest_num_follow rest : rest_ok rest -> num_follow rest.
+Lemma rest_num_follow rest : rest_ok0 rest -> num_follow rest.
 Proof.
   intros H. pose proof (rest_ok_hd _ H). unfold num_follow, isdigit, in_range. lia.
 Qed.
@@ -356,8 +358,8 @@ Proof.
   - reflexivity.
 Qed.
 
-Lemma rest_ok_paren rest : rest_ok rest -> (hd0 (skip_ws rest) =? 40) = false.
-Proof. intros [_ [_ H]]. now apply Z.eqb_neq. Qed.
+Lemma rest_ok_paren rest : rest_ok0 rest -> (hd0 (skip_ws rest) =? 40) = false.
+Proof. intros [_ H]. now apply Z.eqb_neq. Qed.
 
 Lemma st32_id v : - 2 ^ 31 <= v < 2 ^ 31 -> st32 v = v.
 Proof.
@@ -381,14 +383,27 @@ Proof. unfold same_pos. split; apply Nat.eqb_neq; cbn [length]; lia. Qed.
 Section Tokens.
 Variables dec2f dec2d : str -> Z.
 
-(* both recognisers read the token t back as the value v, whatever follows *)
+(* both recognisers read the token t back as the value v, whatever follows:
+   the part before the ellipsis test ... *)
+Definition tok_core (v : av) (t : str) : Prop :=
+  forall rest, rest_ok0 rest ->
+    (forall rec ib, skip_core rec (t ++ rest) ib = Ok (rest, 1, av_type v, 0)) /\
+    (forall rec, scan_core dec2f dec2d rec (t ++ rest) = Ok ([v], rest)).
+(* ... and the whole functions when no ellipsis follows *)
 Definition tok_reads (v : av) (t : str) : Prop :=
   forall rest, rest_ok rest ->
-    (forall f ll ib, skip_next f (t ++ rest) ll true ib = Ok (rest, 1, av_type v)) /\
-    (forall f before, scan_arg_val dec2f dec2d f (t ++ rest) before true = Ok ([v], rest)).
+    (forall f ll fe ib, skip_next dec2f dec2d (S f) (t ++ rest) ll fe ib = Ok (rest, 1, av_type v)) /\
+    (forall f before nb fe, scan_arg_val dec2f dec2d (S f) (t ++ rest) before nb fe = Ok ([v], rest)).
+
+Lemma tok_core_reads v t : tok_core v t -> tok_reads v t.
+Proof.
+  intros H rest [Hr He]. destruct (H rest Hr) as [Hs Hc]. split; intros.
+  - cbn [skip_next]. rewrite Hs, He, andb_false_r. reflexivity.
+  - cbn [scan_arg_val]. rewrite Hc, He, andb_false_r. reflexivity.
+Qed.
 
 (* ---- 'i' and 'h' ------------------------------------------------------------ *)
-Lemma fmtstr_int v rest : rest_ok rest -> scanf_fmtstr (print_d v ++ rest) = Some F_d.
+Lemma fmtstr_int v rest : rest_ok0 rest -> scanf_fmtstr (print_d v ++ rest) = Some F_d.
 Proof.
   intros Hr. unfold scanf_fmtstr.
   rewrite (tok_end_app _ _ (print_d_tokch v) Hr).
@@ -397,7 +412,7 @@ Proof.
   rewrite lit_none by lia. now rewrite same_pos_refl.
 Qed.
 
-Lemma fmtstr_h v rest : rest_ok rest -> scanf_fmtstr (print_d v ++ 104 :: rest) = Some F_h.
+Lemma fmtstr_h v rest : rest_ok0 rest -> scanf_fmtstr (print_d v ++ 104 :: rest) = Some F_h.
 Proof.
   intros Hr. unfold scanf_fmtstr.
   replace (print_d v ++ 104 :: rest) with ((print_d v ++ [104]) ++ rest) by now rewrite <- app_assoc.
@@ -424,7 +439,7 @@ Proof.
     split; [apply isidstart_num; lia|]. split; assumption.
 Qed.
 
-Lemma tok_int v : - 2 ^ 31 <= v < 2 ^ 31 -> tok_reads (VI v) (print_d v).
+Lemma tok_int v : - 2 ^ 31 <= v < 2 ^ 31 -> tok_core (VI v) (print_d v).
 Proof.
   intros Hv rest Hr. pose proof (rest_ok_hd _ Hr) as Hh.
   destruct (numeral_default v rest) as (c & tl & E & Hfc & Hid & Hrm & Hdt);
@@ -432,15 +447,15 @@ Proof.
   pose proof (fmtstr_int v rest Hr) as Hf.
   pose proof (tok_end_app _ _ (print_d_tokch v) Hr) as He.
   rewrite E in *. split; intros.
-  - unfold skip_next. rewrite Hfc, Hrm, Hid, Hdt, same_pos_refl. cbn [negb].
+  - unfold skip_core. rewrite Hfc, Hrm, Hid, Hdt, same_pos_refl. cbn [negb].
     unfold skip_numeric. rewrite Hf, He. cbn [numfmt_type].
-    rewrite (rest_ok_paren _ Hr). cbn [andb]. now rewrite (rest_ok_ell _ Hr).
-  - unfold scan_arg_val. rewrite Hfc, Hrm, Hid, Hdt, same_pos_refl. cbn [negb].
+    rewrite (rest_ok_paren _ Hr). cbn [andb]. reflexivity.
+  - unfold scan_core. rewrite Hfc, Hrm, Hid, Hdt, same_pos_refl. cbn [negb].
     unfold scan_numeric, scan_numeric_once. rewrite Hf, <- E, sc_d_print, E, He by now apply rest_num_follow.
-    rewrite (rest_ok_paren _ Hr), st32_id by assumption. cbn [andb]. now rewrite (rest_ok_ell _ Hr).
+    rewrite (rest_ok_paren _ Hr), st32_id by assumption. cbn [andb]. reflexivity.
 Qed.
 
-Lemma tok_h v : - 2 ^ 63 <= v < 2 ^ 63 -> tok_reads (VH v) (print_d v ++ [104]).
+Lemma tok_h v : - 2 ^ 63 <= v < 2 ^ 63 -> tok_core (VH v) (print_d v ++ [104]).
 Proof.
   intros Hv rest Hr. pose proof (rest_ok_hd _ Hr) as Hh.
   rewrite <- app_assoc. cbn [app].
@@ -451,17 +466,17 @@ Proof.
   { replace (print_d v ++ 104 :: rest) with ((print_d v ++ [104]) ++ rest) by now rewrite <- app_assoc.
     apply tok_end_app; [apply Forall_app; split; [apply print_d_tokch|now constructor]|assumption]. }
   rewrite E in *. split; intros.
-  - unfold skip_next. rewrite Hfc, Hrm, Hid, Hdt, same_pos_refl. cbn [negb].
+  - unfold skip_core. rewrite Hfc, Hrm, Hid, Hdt, same_pos_refl. cbn [negb].
     unfold skip_numeric. rewrite Hf, He. cbn [numfmt_type].
-    rewrite (rest_ok_paren _ Hr). cbn [andb]. now rewrite (rest_ok_ell _ Hr).
-  - unfold scan_arg_val. rewrite Hfc, Hrm, Hid, Hdt, same_pos_refl. cbn [negb].
+    rewrite (rest_ok_paren _ Hr). cbn [andb]. reflexivity.
+  - unfold scan_core. rewrite Hfc, Hrm, Hid, Hdt, same_pos_refl. cbn [negb].
     unfold scan_numeric, scan_numeric_once. rewrite Hf, <- E, sc_i_print, E, He
       by (unfold num_follow, isdigit, in_range, hd0, at_; cbn; lia).
-    rewrite (rest_ok_paren _ Hr), st64_id by assumption. cbn [andb]. now rewrite (rest_ok_ell _ Hr).
+    rewrite (rest_ok_paren _ Hr), st64_id by assumption. cbn [andb]. reflexivity.
 Qed.
 
 (* ---- true false nil inf ------------------------------------------------------ *)
-Lemma skip_word_self w rest : rest_ok rest -> skip_word w (w ++ rest) = Some rest.
+Lemma skip_word_self w rest : rest_ok0 rest -> skip_word w (w ++ rest) = Some rest.
 Proof.
   intros Hr. unfold skip_word.
   assert (E : strip_prefix w (w ++ rest) = Some rest).
@@ -475,77 +490,80 @@ Proof. intros H. cbn [strip_prefix]. now rewrite (proj2 (Z.eqb_neq c a)). Qed.
 Ltac kw_tok Hr :=
   split; intros;
   [ unfold skip_next; cbn [app first_class Z.eqb Pos.eqb orb];
-    rewrite ?skip_word_self by exact Hr; cbn [av_type andb]; now rewrite (rest_ok_ell _ Hr)
+    rewrite ?skip_word_self by exact Hr; cbn [av_type andb]; reflexivity
   | unfold scan_arg_val; cbn [app first_class Z.eqb Pos.eqb orb];
-    rewrite ?skip_word_self by exact Hr; cbn [andb]; now rewrite (rest_ok_ell _ Hr) ].
+    rewrite ?skip_word_self by exact Hr; cbn [andb]; reflexivity ].
 
-Lemma tok_T : tok_reads VT kw_true.
+Lemma tok_T : tok_core VT kw_true.
 Proof.
   intros rest Hr. unfold kw_true. split; intros.
-  - unfold skip_next. cbn [app first_class Z.eqb Pos.eqb orb].
+  - unfold skip_core. cbn [app first_class Z.eqb Pos.eqb orb].
     change (116 :: 114 :: 117 :: 101 :: rest) with (kw_true ++ rest).
-    rewrite skip_word_self by exact Hr. cbn [av_type andb]. now rewrite (rest_ok_ell _ Hr).
-  - unfold scan_arg_val. cbn [app first_class Z.eqb Pos.eqb orb].
+    rewrite skip_word_self by exact Hr. cbn [av_type andb]. reflexivity.
+  - unfold scan_core. cbn [app first_class Z.eqb Pos.eqb orb].
     unfold skip_word at 1. unfold kw_immediately. rewrite strip_prefix_hd by lia.
     unfold skip_word at 1. unfold kw_now. rewrite strip_prefix_hd by lia.
     change (116 :: 114 :: 117 :: 101 :: rest) with (kw_true ++ rest).
-    rewrite skip_word_self by exact Hr. cbn [andb]. now rewrite (rest_ok_ell _ Hr).
+    rewrite skip_word_self by exact Hr. cbn [andb]. reflexivity.
 Qed.
 
 Ltac kw_miss := unfold skip_word at 1;
   cbn [strip_prefix kw_immediately kw_now kw_true kw_false kw_nil kw_inf Z.eqb Pos.eqb].
 
-Lemma tok_F : tok_reads VF kw_false.
+Lemma tok_F : tok_core VF kw_false.
 Proof.
   intros rest Hr. unfold kw_false. split; intros.
-  - unfold skip_next. cbn [app first_class Z.eqb Pos.eqb orb].
+  - unfold skip_core. cbn [app first_class Z.eqb Pos.eqb orb].
     change (102 :: 97 :: 108 :: 115 :: 101 :: rest) with (kw_false ++ rest).
-    rewrite skip_word_self by exact Hr. cbn [av_type andb]. now rewrite (rest_ok_ell _ Hr).
-  - unfold scan_arg_val. cbn [app first_class Z.eqb Pos.eqb orb].
+    rewrite skip_word_self by exact Hr. cbn [av_type andb]. reflexivity.
+  - unfold scan_core. cbn [app first_class Z.eqb Pos.eqb orb].
     do 3 kw_miss.
     change (102 :: 97 :: 108 :: 115 :: 101 :: rest) with (kw_false ++ rest).
-    rewrite skip_word_self by exact Hr. cbn [andb]. now rewrite (rest_ok_ell _ Hr).
+    rewrite skip_word_self by exact Hr. cbn [andb]. reflexivity.
 Qed.
 
-Lemma tok_N : tok_reads VN kw_nil.
+Lemma tok_N : tok_core VN kw_nil.
 Proof.
   intros rest Hr. unfold kw_nil. split; intros.
-  - unfold skip_next. cbn [app first_class Z.eqb Pos.eqb orb].
+  - unfold skip_core. cbn [app first_class Z.eqb Pos.eqb orb].
     change (110 :: 105 :: 108 :: rest) with (kw_nil ++ rest).
-    rewrite skip_word_self by exact Hr. cbn [av_type andb]. now rewrite (rest_ok_ell _ Hr).
-  - unfold scan_arg_val. cbn [app first_class Z.eqb Pos.eqb orb].
+    rewrite skip_word_self by exact Hr. cbn [av_type andb]. reflexivity.
+  - unfold scan_core. cbn [app first_class Z.eqb Pos.eqb orb].
     do 4 kw_miss.
     change (110 :: 105 :: 108 :: rest) with (kw_nil ++ rest).
-    rewrite skip_word_self by exact Hr. cbn [andb]. now rewrite (rest_ok_ell _ Hr).
+    rewrite skip_word_self by exact Hr. cbn [andb]. reflexivity.
 Qed.
 
-Lemma tok_Inf : tok_reads VInf kw_inf.
+Lemma tok_Inf : tok_core VInf kw_inf.
 Proof.
   intros rest Hr. unfold kw_inf. split; intros.
-  - unfold skip_next. cbn [app first_class Z.eqb Pos.eqb orb].
+  - unfold skip_core. cbn [app first_class Z.eqb Pos.eqb orb].
     change (105 :: 110 :: 102 :: rest) with (kw_inf ++ rest).
-    rewrite skip_word_self by exact Hr. cbn [av_type andb]. now rewrite (rest_ok_ell _ Hr).
-  - unfold scan_arg_val. cbn [app first_class Z.eqb Pos.eqb orb].
+    rewrite skip_word_self by exact Hr. cbn [av_type andb]. reflexivity.
+  - unfold scan_core. cbn [app first_class Z.eqb Pos.eqb orb].
     do 5 kw_miss.
     change (105 :: 110 :: 102 :: rest) with (kw_inf ++ rest).
-    rewrite skip_word_self by exact Hr. cbn [andb]. now rewrite (rest_ok_ell _ Hr).
+    rewrite skip_word_self by exact Hr. cbn [andb]. reflexivity.
 Qed.
 
 (* ---- characters ---------------------------------------------------------------- *)
 Lemma esc_roundtrip c chr e :
-  as_escaped_char c chr = Some e -> get_escaped_char e chr = c /\ c <> 0.
+  as_escaped_char c chr = Some e -> get_escaped_char e chr = c /\ (c <> 0 \/ e = 48).
 Proof.
   unfold as_escaped_char.
+  destruct (c =? 0) eqn:E0.
+  { apply Z.eqb_eq in E0. subst. destruct chr; intros H; inversion H; subst. cbn. split; [reflexivity|now right]. }
+  apply Z.eqb_neq in E0.
   repeat match goal with
          | |- context [if ?a =? ?b then _ else _] =>
              destruct (a =? b) eqn:Hq;
-             [apply Z.eqb_eq in Hq; subst; intros H; inversion H; subst; destruct chr; cbn; (split; [reflexivity|lia])|clear Hq]
+             [apply Z.eqb_eq in Hq; subst; intros H; inversion H; subst; destruct chr; cbn; (split; [reflexivity|left; lia])|clear Hq]
          end.
   destruct chr; cbn [andb negb].
   - destruct (c =? 39) eqn:Eq; intros H; [|discriminate]. apply Z.eqb_eq in Eq; subst. inversion H; subst.
-    cbn. split; [reflexivity|lia].
+    cbn. split; [reflexivity|left; lia].
   - destruct (c =? 34) eqn:Eq; intros H; [|discriminate]. apply Z.eqb_eq in Eq; subst. inversion H; subst.
-    cbn. split; [reflexivity|lia].
+    cbn. split; [reflexivity|left; lia].
 Qed.
 
 Lemma esc_none_chr c : as_escaped_char c true = None -> c <> 92 /\ c <> 39.
@@ -558,30 +576,33 @@ Proof.
   cbn [andb negb]. destruct (c =? 39) eqn:E39; intros H; [discriminate|]. lia.
 Qed.
 
-Definition good_char (c : Z) : Prop := 1 <= c <= 255.
+Definition good_char (c : Z) : Prop := 0 <= c <= 255.
 
-Lemma tok_char c : good_char c -> tok_reads (VC c) (print_char c).
+Lemma tok_char c : good_char c -> tok_core (VC c) (print_char c).
 Proof.
   intros Hc rest Hr. unfold print_char. destruct (as_escaped_char c true) as [e|] eqn:E.
   - destruct (esc_roundtrip _ _ _ E) as [Hg Hnz].
     assert (He : (e =? 39) && isspace 39 = false) by now rewrite andb_false_r.
     split; intros.
-    + unfold skip_next. cbn [app first_class Z.eqb Pos.eqb orb length Nat.ltb Nat.leb at_ nth].
-      rewrite He, Hg. replace (c =? 0) with false by lia. cbn [orb negb skipn av_type andb].
-      now rewrite (rest_ok_ell _ Hr).
-    + unfold scan_arg_val. cbn [app first_class Z.eqb Pos.eqb orb at_ nth isspace in_range Z.leb Z.compare Pos.compare Pos.compare_cont andb negb skipn].
-      rewrite Hg. now rewrite (rest_ok_ell _ Hr).
+    + unfold skip_core. cbn [app first_class Z.eqb Pos.eqb orb length Nat.ltb Nat.leb at_ nth].
+      rewrite He, Hg.
+      replace (negb (e =? 48) && (c =? 0)) with false
+        by (destruct Hnz as [Hnz| ->]; [replace (c =? 0) with false by lia; now rewrite andb_false_r|reflexivity]).
+      cbn [orb negb skipn av_type andb]. reflexivity.
+    + unfold scan_core. cbn [app first_class Z.eqb Pos.eqb orb at_ nth isspace in_range Z.leb Z.compare Pos.compare Pos.compare_cont andb negb skipn].
+      rewrite Hg. reflexivity.
   - destruct (esc_none_chr _ E) as [H92 H39]. split; intros.
-    + unfold skip_next. cbn [app first_class Z.eqb Pos.eqb orb length Nat.ltb Nat.leb at_ nth].
-      replace (c =? 92) with false by lia. cbn [skipn av_type andb]. now rewrite (rest_ok_ell _ Hr).
-    + unfold scan_arg_val. cbn [app first_class Z.eqb Pos.eqb orb at_ nth].
-      replace (c =? 92) with false by lia. cbn [skipn andb]. now rewrite (rest_ok_ell _ Hr).
+    + unfold skip_core. cbn [app first_class Z.eqb Pos.eqb orb length Nat.ltb Nat.leb at_ nth].
+      replace (c =? 92) with false by lia. cbn [skipn av_type andb]. reflexivity.
+    + unfold scan_core. cbn [app first_class Z.eqb Pos.eqb orb at_ nth].
+      replace (c =? 92) with false by lia. cbn [skipn andb]. reflexivity.
 Qed.
 
 (* ---- quoted strings -------------------------------------------------------------- *)
 Lemma esc_none_str c : as_escaped_char c false = None -> c <> 92 /\ c <> 34.
 Proof.
   unfold as_escaped_char.
+  destruct (c =? 0) eqn:E0; [apply Z.eqb_eq in E0; intros _; lia|].
   repeat match goal with
          | |- context [if ?a =? ?b then _ else _] =>
              destruct (a =? b) eqn:?Hq; [intros Hd; discriminate Hd|]
@@ -660,7 +681,7 @@ Qed.
 
 Lemma tok_quoted (is_sym : bool) ll s cols :
   nonul s ->
-  tok_reads (if is_sym then VSym s else VS s)
+  tok_core (if is_sym then VSym s else VS s)
             (34 :: fst (print_chars false ll s cols) ++ 34 :: (if is_sym then [83] else [])).
 Proof.
   intros Hs rest Hr. pose proof (rest_ok_hd _ Hr) as Hh.
@@ -672,16 +693,16 @@ Proof.
   assert (Ht : hd0 (if is_sym then 83 :: rest else rest) <> 92).
   { destruct is_sym; [rewrite hd0_cons; lia|lia]. }
   split; intros.
-  - unfold skip_next. cbn [first_class Z.eqb Pos.eqb orb skipn].
+  - unfold skip_core. cbn [first_class Z.eqb Pos.eqb orb skipn].
     unfold body. rewrite eops_body by assumption.
     destruct is_sym.
-    + rewrite hd0_cons. cbn [Z.eqb Pos.eqb skipn av_type andb]. unfold ty_S. now rewrite (rest_ok_ell _ Hr).
-    + replace (hd0 rest =? 83) with false by lia. cbn [av_type andb]. unfold ty_s. now rewrite (rest_ok_ell _ Hr).
-  - unfold scan_arg_val. cbn [first_class Z.eqb Pos.eqb orb skipn].
+    + rewrite hd0_cons. cbn [Z.eqb Pos.eqb skipn av_type andb]. unfold ty_S. reflexivity.
+    + replace (hd0 rest =? 83) with false by lia. cbn [av_type andb]. unfold ty_s. reflexivity.
+  - unfold scan_core. cbn [first_class Z.eqb Pos.eqb orb skipn].
     unfold body. rewrite scan_str_body by assumption. cbn [rev app]. rewrite cstr_of_nonul by assumption.
     destruct is_sym.
-    + rewrite hd0_cons. cbn [Z.eqb Pos.eqb skipn andb]. now rewrite (rest_ok_ell _ Hr).
-    + replace (hd0 rest =? 83) with false by lia. cbn [andb]. now rewrite (rest_ok_ell _ Hr).
+    + rewrite hd0_cons. cbn [Z.eqb Pos.eqb skipn andb]. reflexivity.
+    + replace (hd0 rest =? 83) with false by lia. cbn [andb]. reflexivity.
 Qed.
 End Tokens.
 
@@ -718,19 +739,18 @@ Lemma skip_ws_sep sep T :
 Proof. intros. now apply dropwhile_app. Qed.
 
 Lemma rest_ok_nil : rest_ok [].
-Proof. split; [now left|]. split; [reflexivity|]. cbn. unfold hd0, at_. cbn. lia. Qed.
+Proof. split; [|reflexivity]. split; [now left|]. cbn. unfold hd0, at_. cbn. lia. Qed.
 
 Lemma rest_ok_sep sep c r :
   sepw sep -> first_ok c -> rest_ok (sep ++ c :: r).
 Proof.
   intros [Hne Hs] (H0 & H47 & H37 & Hsp & H46 & H40).
   assert (E : skip_ws (sep ++ c :: r) = c :: r) by (apply skip_ws_sep; assumption).
-  split.
+  split; [split|].
   - right. destruct sep as [|x sep]; [congruence|]. inversion Hs as [|? ? Hx Hs']; subst. cbn [app].
     unfold endc. rewrite hd0_cons. now rewrite Hx.
-  - rewrite E. split.
-    + unfold starts_with, ellipsis. cbn [strip_prefix]. now rewrite (proj2 (Z.eqb_neq c 46)).
-    + now rewrite hd0_cons.
+  - rewrite E. now rewrite hd0_cons.
+  - rewrite E. unfold starts_with, ellipsis. cbn [strip_prefix]. now rewrite (proj2 (Z.eqb_neq c 46)).
 Qed.
 
 Lemma skip_comments_ws_no f c r : c <> 37 -> skip_comments_ws f (c :: r) = c :: r.
@@ -738,13 +758,13 @@ Proof. intros H. destruct f; [reflexivity|]. cbn [skip_comments_ws]. rewrite hd0
 
 Lemma count_loop_lang vs T : lang vs T ->
   forall fuel recent num, (length T < fuel)%nat ->
-  count_loop fuel T recent num = Ok (true, num + Z.of_nat (length vs)).
+  count_loop dec2f dec2d fuel T recent num = Ok (true, num + Z.of_nat (length vs)).
 Proof.
   induction 1 as [|v t Ht|v t sep v' vs T Ht Hsep HL IH]; intros fuel recent num Hf.
   - destruct fuel; [cbn in Hf; lia|]. cbn. f_equal. f_equal. lia.
   - destruct fuel; [lia|]. destruct Ht as (Hrd & (c & r & -> & Hc) & _).
     destruct Hc as (H0 & H47 & H37 & Hsp & H46 & H40).
-    cbn [count_loop]. rewrite hd0_cons. replace ((c =? 0) || (c =? 47)) with false by lia.
+    cbn [count_loop length]. rewrite hd0_cons. replace ((c =? 0) || (c =? 47)) with false by lia.
     destruct (Hrd [] rest_ok_nil) as [Hs _]. rewrite app_nil_r in Hs. rewrite Hs.
     cbn [skip_ws dropwhile]. cbn [hd0 at_ nth Z.eqb negb andb].
     destruct fuel; [cbn in Hf; lia|]. cbn. f_equal.
@@ -752,7 +772,7 @@ Proof.
     destruct (lang_first _ _ _ HL) as (c' & r' & -> & Hc').
     pose proof (rest_ok_sep sep c' r' Hsep Hc') as Hro.
     destruct Hc as (H0 & H47 & H37 & Hsp & H46 & H40).
-    cbn [count_loop app]. rewrite hd0_cons. replace ((c =? 0) || (c =? 47)) with false by lia.
+    cbn [count_loop app length]. rewrite hd0_cons. replace ((c =? 0) || (c =? 47)) with false by lia.
     destruct (Hrd _ Hro) as [Hs _]. cbn [app] in Hs. rewrite Hs.
     destruct Hc' as (H0' & H47' & H37' & Hsp' & H46' & H40').
     rewrite skip_ws_sep by (try apply Hsep; now rewrite hd0_cons).
@@ -783,17 +803,17 @@ Proof.
   induction 1 as [|v t Ht|v t sep v' vs T Ht Hsep HL IH]; intros fuel i n acc Hn Hf.
   - destruct fuel; [lia|]. cbn [scan_loop]. cbn in Hn. replace (n <=? i) with true by lia.
     now rewrite app_nil_r.
-  - destruct fuel; [lia|]. destruct Ht as (Hrd & _ & Hsc). cbn [scan_loop]. cbn [length] in Hn.
+  - destruct fuel; [lia|]. destruct Ht as (Hrd & (c & r & -> & _) & Hsc). cbn [scan_loop]. cbn [length] in Hn.
     replace (n <=? i) with false by lia.
-    destruct (Hrd [] rest_ok_nil) as [_ Hs]. rewrite app_nil_r in Hs. rewrite Hs.
+    destruct (Hrd [] rest_ok_nil) as [_ Hs]. rewrite app_nil_r in Hs. cbn [length]. rewrite Hs.
     rewrite slots_offset_scalar by assumption.
     destruct fuel; [cbn in Hf; lia|]. cbn [scan_loop length skip_ws_comments skip_ws dropwhile].
     cbn [hd0 at_ nth Z.eqb]. replace (n <=? i + 1) with true by lia. reflexivity.
-  - destruct fuel; [lia|]. destruct Ht as (Hrd & _ & Hsc).
+  - destruct fuel; [lia|]. destruct Ht as (Hrd & (c & r & -> & _) & Hsc).
     destruct (lang_first _ _ _ HL) as (c' & r' & -> & Hc').
     pose proof (rest_ok_sep sep c' r' Hsep Hc') as Hro.
     cbn [scan_loop]. cbn [length] in Hn. replace (n <=? i) with false by lia.
-    destruct (Hrd _ Hro) as [_ Hs]. rewrite Hs.
+    destruct (Hrd _ Hro) as [_ Hs]. cbn [app length] in *. rewrite Hs.
     rewrite slots_offset_scalar by assumption.
     rewrite skip_ws_comments_tok by (try apply Hsep; assumption).
     rewrite IH; [now rewrite <- app_assoc | cbn [length]; lia | cbn [length] in *; lia].
@@ -806,6 +826,17 @@ Variable o : popts.
 Variable P : av -> Prop.
 Hypothesis Htok : forall v cols t w c,
   P v -> print_scalar o v cols = Some (t, w, c) -> tokof dec2f dec2d v t /\ w = len t.
+Hypothesis HPs : forall v, P v -> scalar v.
+Hypothesis Hoff : compress o = false.
+
+Lemma conv_off args size : convert_to_range o args size = CNo.
+Proof. unfold convert_to_range. rewrite Hoff. cbn [negb]. now rewrite !orb_true_r. Qed.
+
+Lemma print_arg_val_scalar v rest cols prev :
+  scalar v ->
+  print_arg_val o (v :: rest) cols prev =
+  match print_scalar o v cols with Some (t, w, c) => Some (t, w, c, false) | None => None end.
+Proof. destruct v; cbn [scalar]; try tauto; intros _; reflexivity. Qed.
 
 Fixpoint lang_from (pend : bool) (args : list av) (sfx : str) : Prop :=
   match args with
@@ -834,14 +865,15 @@ Proof.
   - destruct fuel; [discriminate|]. cbn [print_vals_loop] in Hrun. cbn [length] in Hn.
     replace (n <=? i) with false in Hrun by lia.
     pose proof (Forall_inv HP) as Hv. pose proof (Forall_inv_tail HP) as HP'.
-    unfold convert_to_range, print_arg_val in Hrun.
+    rewrite conv_off, (print_arg_val_scalar v rest cols prev (HPs v Hv)) in Hrun.
     destruct (print_scalar o v cols) as [[[t tmp] cols1]|] eqn:Eps; [|discriminate].
+    rewrite ?orb_false_r in Hrun.
     destruct (Htok _ _ _ _ _ Hv Eps) as [Htk ->].
     destruct (if breaks_itself (av_type v) then (false, cols1, awtl)
               else lb_check (linelength o) cols1 (len t) awtl) as [[brk_ cols2] awtl2] eqn:Elb.
     assert (Hsc : scalar v) by apply Htk.
     rewrite (next_arg_offset_scalar v rest Hsc) in Hrun.
-    change (skipz 1 (v :: rest)) with rest in Hrun.
+    change (skipz 1 (v :: rest)) with rest in Hrun. rewrite ?orb_false_r in Hrun.
     destruct (brk_ && negb pend) eqn:Ebp; [discriminate|].
     set (sepz := if brk_ then nl4 else if pend then [32] else []) in *.
     assert (Hsepz : if pend then sepz = [32] \/ sepz = nl4 else sepz = []).
@@ -924,40 +956,40 @@ Lemma scalar_tok o v cols t w c :
   good_val v -> print_scalar o v cols = Some (t, w, c) -> tokof dec2f dec2d v t /\ w = len t.
 Proof.
   intros Hg Hp. destruct v; cbn [good_val] in Hg; try contradiction; cbn in Hp; inversion Hp; subst; clear Hp.
-  - split; [|reflexivity]. split; [now apply tok_int|]. split; [|exact I].
+  - split; [|reflexivity]. split; [now apply tok_core_reads, tok_int|]. split; [|exact I].
     destruct (print_d_hd i) as (c0 & tl & E & Hc). exists c0, tl. split; [assumption|now apply first_ok_num].
-  - split; [|reflexivity]. split; [now apply tok_h|]. split; [|exact I].
+  - split; [|reflexivity]. split; [now apply tok_core_reads, tok_h|]. split; [|exact I].
     destruct (print_d_hd h) as (c0 & tl & E & Hc). rewrite E. exists c0, (tl ++ [104]).
     split; [reflexivity|now apply first_ok_num].
-  - split; [|reflexivity]. split; [now apply tok_char|]. split; [|exact I].
+  - split; [|reflexivity]. split; [now apply tok_core_reads, tok_char|]. split; [|exact I].
     unfold print_char. destruct (as_escaped_char c0 true); eexists _, _; (split; [reflexivity|]);
       unfold first_ok, isspace, in_range; lia.
-  - split; [|reflexivity]. split; [apply tok_T|]. split; [|exact I].
+  - split; [|reflexivity]. split; [apply tok_core_reads, tok_T|]. split; [|exact I].
     eexists _, _. split; [reflexivity|]. apply first_ok_alpha. lia.
-  - split; [|reflexivity]. split; [apply tok_F|]. split; [|exact I].
+  - split; [|reflexivity]. split; [apply tok_core_reads, tok_F|]. split; [|exact I].
     eexists _, _. split; [reflexivity|]. apply first_ok_alpha. lia.
-  - split; [|reflexivity]. split; [apply tok_N|]. split; [|exact I].
+  - split; [|reflexivity]. split; [apply tok_core_reads, tok_N|]. split; [|exact I].
     eexists _, _. split; [reflexivity|]. apply first_ok_alpha. lia.
-  - split; [|reflexivity]. split; [apply tok_Inf|]. split; [|exact I].
+  - split; [|reflexivity]. split; [apply tok_core_reads, tok_Inf|]. split; [|exact I].
     eexists _, _. split; [reflexivity|]. apply first_ok_alpha. lia.
   - unfold print_string in H0. cbn [andb] in H0.
     destruct (print_chars false (linelength o) s (cols + 1)) as [body c1] eqn:Eb.
     inversion H0; subst; clear H0. split; [|reflexivity].
     split; [|split; [|exact I]].
     + replace body with (fst (print_chars false (linelength o) s (cols + 1))) by now rewrite Eb.
-      exact (tok_quoted dec2f dec2d false _ _ _ Hg).
+      exact (tok_core_reads _ _ _ _ (tok_quoted dec2f dec2d false _ _ _ Hg)).
     + eexists _, _. split; [reflexivity|]. unfold first_ok, isspace, in_range. lia.
   - destruct Hg as [Hn Hpl]. unfold print_string in H0. rewrite Hpl in H0. cbn [andb] in H0.
     destruct (print_chars false (linelength o) s (cols + 1)) as [body c1] eqn:Eb.
     inversion H0; subst; clear H0. split; [|reflexivity].
     split; [|split; [|exact I]].
     + replace body with (fst (print_chars false (linelength o) s (cols + 1))) by now rewrite Eb.
-      exact (tok_quoted dec2f dec2d true _ _ _ Hn).
+      exact (tok_core_reads _ _ _ _ (tok_quoted dec2f dec2d true _ _ _ Hn)).
     + eexists _, _. split; [reflexivity|]. unfold first_ok, isspace, in_range. lia.
 Qed.
 
 Lemma count_lang vs T : lang dec2f dec2d vs T ->
-  count_printed_arg_vals T = Ok (true, Z.of_nat (length vs)).
+  count_printed_arg_vals dec2f dec2d T = Ok (true, Z.of_nat (length vs)).
 Proof.
   intros HL. unfold count_printed_arg_vals.
   assert (E : skip_comments_ws (S (length (skip_ws T))) (skip_ws T) = T).
@@ -976,14 +1008,18 @@ Proof.
   rewrite (scan_loop_lang _ _ _ _ HL); [reflexivity|lia|lia].
 Qed.
 
+Lemma good_val_scalar v : good_val v -> scalar v.
+Proof. destruct v; cbn; tauto. Qed.
+
 Theorem roundtrip_scalars o vs text w :
+  compress o = false ->
   Forall good_val vs -> print_arg_vals o vs 0 = Some (text, w) ->
   w = len text /\
-  count_printed_arg_vals text = Ok (true, Z.of_nat (length vs)) /\
+  count_printed_arg_vals dec2f dec2d text = Ok (true, Z.of_nat (length vs)) /\
   scan_arg_vals dec2f dec2d text (Z.of_nat (length vs)) = Ok (vs, []).
 Proof.
-  intros Hg Hp.
-  destruct (print_arg_vals_lang dec2f dec2d o good_val (scalar_tok o) vs text w Hg Hp) as [HL ->].
+  intros Hoff Hg Hp.
+  destruct (print_arg_vals_lang dec2f dec2d o good_val (scalar_tok o) good_val_scalar Hoff vs text w Hg Hp) as [HL ->].
   split; [reflexivity|]. split; [now apply count_lang | now apply scan_lang].
 Qed.
 End Main.
@@ -1019,7 +1055,7 @@ Qed.
 
 Theorem sentences_agree s T :
   Forall wf_word s -> spell s = Some T ->
-  count_printed_arg_vals T = Ok (true, Z.of_nat (length s)) /\
+  count_printed_arg_vals dec2f dec2d T = Ok (true, Z.of_nat (length s)) /\
   scan_arg_vals dec2f dec2d T (Z.of_nat (length s)) = Ok (denote s, []).
 Proof.
   intros Hw H. pose proof (spell_lang s T Hw H) as HL.
@@ -1039,14 +1075,15 @@ Proof.
 Qed.
 
 Theorem sentences_reprint s T o T' w :
+  compress o = false ->
   Forall wf_word s -> spell s = Some T ->
   print_arg_vals o (denote s) 0 = Some (T', w) ->
   scan_arg_vals dec2f dec2d T' (Z.of_nat (length s)) = scan_arg_vals dec2f dec2d T (Z.of_nat (length s)).
 Proof.
-  intros Hw H Hp. rewrite (proj2 (sentences_agree s T Hw H)).
+  intros Hoff Hw H Hp. rewrite (proj2 (sentences_agree s T Hw H)).
   assert (Hg : Forall good_val (denote s)).
   { unfold denote. apply Forall_map. eapply Forall_impl; [|exact Hw]. intros a Ha. apply Ha. }
-  pose proof (roundtrip_scalars dec2f dec2d o (denote s) T' w Hg Hp) as (_ & _ & Hs).
+  pose proof (roundtrip_scalars dec2f dec2d o (denote s) T' w Hoff Hg Hp) as (_ & _ & Hs).
   unfold denote in Hs. rewrite map_length in Hs. exact Hs.
 Qed.
 
@@ -1087,7 +1124,7 @@ Proof.
   - destruct (print_string o true s cols) as [t c]. eexists _, _, _; reflexivity.
 Qed.
 
-Lemma print_loop_total o : forall args fuel prev i n acc pend wrt cols awtl,
+Lemma print_loop_total o (Hoff : compress o = false) : forall args fuel prev i n acc pend wrt cols awtl,
   Forall good_val args -> n = i + Z.of_nat (length args) -> (length args < fuel)%nat ->
   (pend = false -> args = [] \/ awtl = 0) ->
   exists r, print_vals_loop fuel o args prev i n acc pend wrt cols awtl = Some r.
@@ -1098,9 +1135,9 @@ Proof.
   - destruct fuel; [cbn in Hf; lia|]. cbn [print_vals_loop]. cbn [length] in Hn, Hf.
     replace (n <=? i) with false by lia.
     pose proof (Forall_inv Hg) as Hv. pose proof (Forall_inv_tail Hg) as Hg'.
-    unfold convert_to_range, print_arg_val.
-    destruct (print_scalar_some o v cols Hv) as (t & tmp & cols1 & E). rewrite E.
     assert (Hsc : scalar v) by (destruct v; cbn in Hv; try contradiction; exact I).
+    rewrite (conv_off o Hoff), (print_arg_val_scalar o v rest cols prev Hsc).
+    destruct (print_scalar_some o v cols Hv) as (t & tmp & cols1 & E). rewrite E.
     rewrite (next_arg_offset_scalar v rest Hsc). change (skipz 1 (v :: rest)) with rest.
     destruct (if breaks_itself (av_type v) then (false, cols1, awtl)
               else lb_check (linelength o) cols1 tmp awtl) as [[brk_ cols2] awtl2] eqn:Elb.
@@ -1110,15 +1147,16 @@ Proof.
       destruct (breaks_itself (av_type v)); [now inversion Elb|].
       unfold lb_check in Elb. cbn [Z.add Z.ltb Z.compare Pos.compare Pos.compare_cont] in Elb.
       rewrite andb_false_r in Elb. now inversion Elb. }
-    rewrite Hb.
+    rewrite orb_false_r, Hb.
     destruct (i + 1 <? n) eqn:En; apply IH; try assumption; try lia;
       intros Hd; try discriminate Hd; left; destruct rest; [reflexivity|cbn [length] in Hn; lia].
 Qed.
 
-Theorem print_arg_vals_total o vs : Forall good_val vs -> exists text w, print_arg_vals o vs 0 = Some (text, w).
+Theorem print_arg_vals_total o vs :
+  compress o = false -> Forall good_val vs -> exists text w, print_arg_vals o vs 0 = Some (text, w).
 Proof.
-  intros Hg. unfold print_arg_vals.
-  destruct (print_loop_total o vs (S (length vs)) None 0 (Z.of_nat (length vs)) [] false 0 0 0 Hg)
+  intros Hoff Hg. unfold print_arg_vals.
+  destruct (print_loop_total o Hoff vs (S (length vs)) None 0 (Z.of_nat (length vs)) [] false 0 0 0 Hg)
     as [[text w] E]; try lia; try (intros _; now right).
   eexists _, _. exact E.
 Qed.
